@@ -11,8 +11,12 @@ import (
 	"net"
 	"net/http"
 	"net/http/httptest"
+	"os"
+	goruntime "runtime"
 	"sort"
+	"strconv"
 	"strings"
+	"sync"
 
 	"github.com/go-openapi/loads"
 	"github.com/go-openapi/runtime"
@@ -360,9 +364,23 @@ func descriptor(a API, via string, reqs []Req, enumPool []Target, enumMax int, e
 	for _, p := range enumPool {
 		pool = append(pool, append([]int{}, p...))
 	}
-	return M{"api": a.JSON(), "via": via, "reqs": rs,
+	return M{"api": a.JSON(), "via": via, "reqs": rs, "conc": 0, "procs": 0, "yield": false,
 		"enum": M{"pool": pool, "max": enumMax, "methods": trace.BB(enumMethods)}}
 }
+
+// concurrent: the requests are served in batches of conc simultaneous goroutines against one handler, at GOMAXPROCS procs.
+// yield: the API is built in debug mode with a logger whose Debugf yields the processor (runtime.Gosched), a legitimate
+// application-supplied callback that the serving code calls between its steps (e.g. between the trie lookup and the
+// decoding of the captured values); it makes interleavings of concurrent requests likely instead of rare.
+func concurrent(d M, conc, procs int, yield bool) M {
+	d["conc"], d["procs"], d["yield"] = conc, procs, yield
+	return d
+}
+
+type yieldLogger struct{}
+
+func (yieldLogger) Printf(string, ...interface{}) {}
+func (yieldLogger) Debugf(string, ...interface{}) { goruntime.Gosched() }
 
 func generate(c *drv.Ctx) {
 	thorough := c.Tier == "thorough"
@@ -481,6 +499,95 @@ func generate(c *drv.Ctx) {
 		}
 		c.Case(descriptor(a, via, reqs, nil, 0, nil))
 	}
+
+	// (iv) concurrent requests: batches of N in {8, 64} requests served simultaneously from N goroutines against ONE
+	// handler, at GOMAXPROCS 1 / 4 / 16; every request carries parameter texts of its own (its index is part of each
+	// text), templates and methods are mixed. Each request keeps its own event, so the same per-request property is checked:
+	// a request handled with another request's values is a wrong-operation-or-parameters rejection.
+	fixed := API{Base: Base{Segs: []string{"api"}}, Ops: []Op{
+		{Method: "GET", Segs: []Seg{lit("owners"), par("owner"), lit("pets"), par("id")}},
+		{Method: "GET", Segs: tAX}, {Method: "GET", Segs: tXB}, {Method: "GET", Segs: tAXCY},
+		{Method: "POST", Segs: tAX}, {Method: "PUT", Segs: tAB}, {Method: "GET", Segs: []Seg{lit("owners"), par("owner")}}}}
+	nConcReq, nConcAPIs := 384, 2
+	if thorough {
+		nConcReq, nConcAPIs = 1024, 6
+	}
+	k := 0
+	for _, procs := range []int{1, 4, 16} {
+		for _, n := range []int{8, 64} {
+			for j := 0; j < nConcAPIs; j++ {
+				a := fixed
+				if j > 0 {
+					for {
+						a = randomAPI(c)
+						if hasParamOp(a) {
+							break
+						}
+					}
+				}
+				via := []string{"routes", "api", "routes", "server"}[k%4]
+				k++
+				var reqs []Req
+				for i := 0; i < nConcReq; i++ {
+					reqs = append(reqs, uniqueReq(c, a, i))
+				}
+				c.Case(concurrent(descriptor(a, via, reqs, nil, 0, nil), n, procs, k%3 != 0))
+			}
+		}
+	}
+	c.Extra["concurrent_cases"] = k
+	c.Extra["concurrent_requests"] = k * nConcReq
+}
+
+func hasParamOp(a API) bool {
+	for _, o := range a.Ops {
+		for _, s := range o.Segs {
+			if s.Param {
+				return true
+			}
+		}
+	}
+	return false
+}
+
+// uniqueReq: a request instantiating an operation (mostly a parameterised one) whose every parameter text contains the
+// request's index and the placeholder's position, so that no two requests of a case share a value.
+func uniqueReq(c *drv.Ctx, a API, i int) Req {
+	r := c.Rng
+	o := a.Ops[r.Intn(len(a.Ops))]
+	for tries := 0; tries < 4 && !hasParamOp(API{Ops: []Op{o}}); tries++ {
+		o = a.Ops[r.Intn(len(a.Ops))]
+	}
+	var segs []Target
+	for _, s := range a.Base.Segs {
+		segs = append(segs, plain(s))
+	}
+	for k, s := range o.Segs {
+		if !s.Param {
+			segs = append(segs, atomsOf(s.S))
+			continue
+		}
+		t := plain(fmt.Sprintf("r%dp%d", i, k))
+		switch r.Intn(4) {
+		case 0:
+			t = append(t, escU('/'), 'z')
+		case 1:
+			t = append(Target{escU('%')}, t...)
+		}
+		segs = append(segs, t)
+	}
+	m := o.Method
+	switch r.Intn(10) {
+	case 0:
+		m = strings.ToLower(m)
+	case 1:
+		m = allMethods[r.Intn(len(allMethods))]
+	}
+	trailing := r.Intn(8) == 0
+	if r.Intn(12) == 0 && len(segs) > 0 {
+		segs = append(segs[:len(segs)-1], plain("."), segs[len(segs)-1])
+	}
+	return Req{Method: m, Target: segsTarget(segs, trailing)}
 }
 
 var words = []string{"a", "b", "ab", "ba", "users", "user", "pets", "pet", "v1", "v2", "items", "item", "x", "y", "list",
@@ -747,22 +854,42 @@ func execute(c *drv.Ctx, d M) bool {
 	api := untyped.NewAPI(doc)
 	api.RegisterConsumer("application/json", runtime.JSONConsumer())
 	api.RegisterProducer("application/json", runtime.JSONProducer())
-	var rl runLog
+	// per-request observation slots; the callbacks find the slot of the request they are serving through the
+	// goroutine that serves it (the operation handler gets no request), so that concurrent requests never share one
+	states := make([]reqState, len(reqs))
+	var cur sync.Map // goroutine id -> *reqState
+	slot := func() *reqState {
+		if v, ok := cur.Load(gid()); ok {
+			return v.(*reqState)
+		}
+		panic("c01: callback outside a served request")
+	}
 	for i, o := range a.Ops {
 		idx := i + 1
 		api.RegisterOperation(strings.ToLower(o.Method), o.Template(), runtime.OperationHandlerFunc(func(params interface{}) (interface{}, error) {
-			rl.ran = append(rl.ran, idx)
-			rl.params = paramList(params)
+			st := slot()
+			st.rl.ran = append(st.rl.ran, idx)
+			st.rl.params = paramList(params)
 			return map[string]int{"op": idx}, nil
 		}))
 	}
 	if err := api.Validate(); err != nil {
 		panic(fmt.Sprintf("c01: generated API does not validate: %v", err))
 	}
+	if drv.Bool(d["yield"]) {
+		// debug mode is read from the environment when the context, router and binders are constructed
+		os.Setenv("SWAGGER_DEBUG", "1")
+		prev := middleware.Logger
+		middleware.Logger = yieldLogger{}
+		defer func() {
+			os.Unsetenv("SWAGGER_DEBUG")
+			middleware.Logger = prev
+		}()
+	}
 	ctx := middleware.NewContext(doc, api, nil)
-	var sn seen
 	builder := func(next http.Handler) http.Handler {
 		return http.HandlerFunc(func(w http.ResponseWriter, r *http.Request) {
+			sn := &slot().sn
 			if mr := middleware.MatchedRouteFrom(r); mr != nil {
 				sn.matched = true
 				sn.pattern = mr.PathPattern
@@ -781,9 +908,17 @@ func execute(c *drv.Ctx, d M) bool {
 		inner = ctx.RoutesHandler(builder)
 	}
 	outer := http.HandlerFunc(func(w http.ResponseWriter, r *http.Request) {
-		sn.got = true
-		sn.method = r.Method
-		sn.escaped = r.URL.EscapedPath()
+		i, err := strconv.Atoi(r.Header.Get("X-Verif-Req"))
+		if err != nil || i < 0 || i >= len(states) {
+			panic("c01: request without index")
+		}
+		st := &states[i]
+		g := gid()
+		cur.Store(g, st)
+		defer cur.Delete(g)
+		st.sn.got = true
+		st.sn.method = r.Method
+		st.sn.escaped = r.URL.EscapedPath()
 		inner.ServeHTTP(w, r)
 	})
 	var srv *httptest.Server
@@ -792,28 +927,31 @@ func execute(c *drv.Ctx, d M) bool {
 		defer srv.Close()
 	}
 
-	ranWithParams, missed := false, false
-	for _, rq := range reqs {
-		rl = runLog{}
-		sn = seen{}
+	serveOne := func(i int) {
+		rq := reqs[i]
+		st := &states[i]
 		line := rq.Target.Render()
 		if rq.Query {
 			line += "?x=%2F&y=/a/../b"
 		}
-		status, allow, panicked := 0, []string{}, false
 		if srv != nil {
-			status, allow, panicked = serveTCP(srv, rq.Method, line)
+			st.status, st.allow, st.panicked = serveTCP(srv, rq.Method, line, i)
 		} else {
-			status, allow, panicked = serveRecorder(outer, rq.Method, line)
+			st.status, st.allow, st.panicked = serveRecorder(outer, rq.Method, line, i)
 		}
-		if !sn.got {
-			panic(fmt.Sprintf("c01: net/http did not deliver %q %q to the handler (status %d)", rq.Method, line, status))
+	}
+	ranWithParams, missed := false, false
+	emit := func(i int) {
+		rq := reqs[i]
+		st := &states[i]
+		if !st.sn.got {
+			panic(fmt.Sprintf("c01: net/http did not deliver %q %q to the handler (status %d)", rq.Method, rq.Target.Render(), st.status))
 		}
-		if sn.method != rq.Method {
-			panic(fmt.Sprintf("c01: method %q delivered as %q", rq.Method, sn.method))
+		if st.sn.method != rq.Method {
+			panic(fmt.Sprintf("c01: method %q delivered as %q", rq.Method, st.sn.method))
 		}
 		var al []string
-		for _, h := range allow {
+		for _, h := range st.allow {
 			for _, tok := range strings.Split(h, ",") {
 				if tok = strings.TrimSpace(tok); tok != "" {
 					al = append(al, tok)
@@ -821,33 +959,97 @@ func execute(c *drv.Ctx, d M) bool {
 			}
 		}
 		sort.Strings(al)
-		ran := rl.ran
+		ran := st.rl.ran
 		if ran == nil {
 			ran = []int{}
 		}
-		params := rl.params
+		params := st.rl.params
 		if params == nil {
 			params = []M{}
 		}
-		mparams := sn.mparams
+		mparams := st.sn.mparams
 		if mparams == nil {
 			mparams = []M{}
 		}
-		c.W.Event("serve", M{"method": trace.B(rq.Method), "target": []int(rq.Target), "escaped": trace.B(sn.escaped),
-			"ran": ran, "params": params, "status": status, "allow": trace.BB(al), "panic": panicked,
-			"matched": sn.matched, "mparams": mparams, "pattern": trace.B(sn.pattern)})
+		c.W.Event("serve", M{"method": trace.B(rq.Method), "target": []int(rq.Target), "escaped": trace.B(st.sn.escaped),
+			"ran": ran, "params": params, "status": st.status, "allow": trace.BB(al), "panic": st.panicked,
+			"matched": st.sn.matched, "mparams": mparams, "pattern": trace.B(st.sn.pattern)})
 		if len(ran) == 1 && len(params) > 0 {
 			ranWithParams = true
 		}
-		if status == 404 || status == 405 {
+		if st.status == 404 || st.status == 405 {
 			missed = true
+		}
+	}
+	conc, procs := 0, 0
+	if v, ok := d["conc"]; ok {
+		conc = drv.Int(v)
+	}
+	if v, ok := d["procs"]; ok {
+		procs = drv.Int(v)
+	}
+	if conc <= 1 {
+		for i := range reqs {
+			serveOne(i)
+			emit(i)
+		}
+		return ranWithParams && missed
+	}
+	// concurrent mode: batches of conc requests served simultaneously by conc goroutines against the one handler;
+	// every request keeps its own event, emitted in request order after its batch
+	if procs > 0 {
+		defer goruntime.GOMAXPROCS(goruntime.GOMAXPROCS(procs))
+	}
+	for lo := 0; lo < len(reqs); lo += conc {
+		hi := lo + conc
+		if hi > len(reqs) {
+			hi = len(reqs)
+		}
+		start := make(chan struct{})
+		var wg sync.WaitGroup
+		for i := lo; i < hi; i++ {
+			wg.Add(1)
+			go func(i int) {
+				defer wg.Done()
+				<-start
+				serveOne(i)
+			}(i)
+		}
+		close(start)
+		wg.Wait()
+		for i := lo; i < hi; i++ {
+			emit(i)
 		}
 	}
 	return ranWithParams && missed
 }
 
-func serveRecorder(h http.Handler, method, line string) (status int, allow []string, panicked bool) {
+type reqState struct {
+	rl       runLog
+	sn       seen
+	status   int
+	allow    []string
+	panicked bool
+}
+
+// gid returns the id of the calling goroutine (from the first line of its stack trace: "goroutine 123 [running]:").
+func gid() uint64 {
+	var b [64]byte
+	n := goruntime.Stack(b[:], false)
+	s := b[len("goroutine "):n]
+	var id uint64
+	for _, ch := range s {
+		if ch < '0' || ch > '9' {
+			break
+		}
+		id = id*10 + uint64(ch-'0')
+	}
+	return id
+}
+
+func serveRecorder(h http.Handler, method, line string, idx int) (status int, allow []string, panicked bool) {
 	req := httptest.NewRequest(method, line, nil)
+	req.Header.Set("X-Verif-Req", strconv.Itoa(idx))
 	w := httptest.NewRecorder()
 	func() {
 		defer func() {
@@ -865,13 +1067,13 @@ func serveRecorder(h http.Handler, method, line string) (status int, allow []str
 
 // serveTCP writes the request line verbatim on a fresh connection, so that the target the handler sees is
 // exactly what net/http's server makes of these bytes.
-func serveTCP(srv *httptest.Server, method, line string) (status int, allow []string, panicked bool) {
+func serveTCP(srv *httptest.Server, method, line string, idx int) (status int, allow []string, panicked bool) {
 	conn, err := net.Dial("tcp", srv.Listener.Addr().String())
 	if err != nil {
 		panic(fmt.Sprintf("c01: dial: %v", err))
 	}
 	defer conn.Close()
-	if _, err := fmt.Fprintf(conn, "%s %s HTTP/1.1\r\nHost: verif\r\nConnection: close\r\n\r\n", method, line); err != nil {
+	if _, err := fmt.Fprintf(conn, "%s %s HTTP/1.1\r\nHost: verif\r\nX-Verif-Req: %d\r\nConnection: close\r\n\r\n", method, line, idx); err != nil {
 		panic(fmt.Sprintf("c01: write: %v", err))
 	}
 	resp, err := http.ReadResponse(bufio.NewReader(conn), &http.Request{Method: method})
